@@ -14,6 +14,12 @@ statement, as Lean functions over the primitives of lean/Nstd/Args/CSem.lean int
 lean/Nstd/Args/PropsCode*.lean prove that the generated functions are the model's `nextChar` / `read` / `splitCommandLine`
 (lean/Nstd/Args/Model.lean) on every state that represents a model state.
 
+Second output, lean/Nstd/Generated/ArgsProc.lean: the Process object -- `Process::Process()`, `~Process()`, `isRunning()`, `kill()`,
+`join(uint32&)`, `join()`, `close(uint)` (POSIX branches) over the members `fdStdOutRead`, `fdStdErrRead`, `fdStdInWrite`, `pid`,
+`enum Stream`; system calls go to the kernel ghost of lean/Nstd/Args/CSemProc.lean (`::close(fd)`, `::kill((pid_t)pid, SIGKILL)` append to
+the call trace; `waitpid(pid, &status, 0) != (pid_t)pid` is ONE condition answered by an oracle; `WEXITSTATUS`, `errno = EINVAL`).
+lean/Nstd/Args/PropsProc.lean proves them equal to `Proc.step` and to the action list `Kernel.joinProgram`.
+
 Anything outside the understood subset is REFUSED (exception -> the check reports a broken tie).
 
 Translation scheme (assumptions, listed in the MANIFEST note):
@@ -36,6 +42,7 @@ from pathlib import Path
 
 VERIF = Path(__file__).resolve().parents[1]
 OUT = VERIF / "lean" / "Nstd" / "Generated" / "ArgsCode.lean"
+OUT_PROC = VERIF / "lean" / "Nstd" / "Generated" / "ArgsProc.lean"
 
 
 class Refuse(Exception):
@@ -177,7 +184,7 @@ def posix_branch(toks):
 
 def find_body(toks, sig, what):
     """the tokens between the braces of the one definition whose signature is the token texts `sig`"""
-    texts = [t[1] if t[0] in ("id", "op") else None for t in toks]
+    texts = [t[1] if t[0] in ("id", "op") else str(t[1]) if t[0] == "num" else None for t in toks]
     hits = [i for i in range(len(toks) - len(sig)) if texts[i:i + len(sig)] == sig and texts[i + len(sig)] == "{"]
     if len(hits) != 1:
         raise Refuse(f"{what}: {len(hits)} definitions with the expected signature `{' '.join(sig)}`")
@@ -202,6 +209,8 @@ TYPES = {
     ("int",): "int",
     ("bool",): "bool",
     ("String",): "string",
+    ("uint32",): "usize",
+    ("uint",): "usize",
 }
 BINPREC = [["||"], ["&&"], ["|"], ["^"], ["&"], ["==", "!="], ["<", ">", "<=", ">="], ["<<", ">>"], ["+", "-"], ["*", "/", "%"]]
 ALLOWED_BIN = {"||", "&&", "&", "==", "!=", "<", "+", "-"}
@@ -375,9 +384,13 @@ class Parser:
         if self.at("++"):
             self.eat()
             return ("un", "pre++", self.unary())
-        if self.at("(") and self.at("char", 1) and self.at(")", 2):
+        if self.at("(") and self.at(")", 2) and self.peek(1)[0] == "id" and self.peek(1)[1] in ("char", "pid_t", "int", "uint32"):
+            ty = self.peek(1)[1]
             self.i += 3
-            return ("cast", "char", self.unary())
+            return ("cast", ty, self.unary())
+        if self.at("&") and self.peek(1)[0] == "id":
+            self.eat()
+            return ("addr", self.eat()[1])
         for op in ("--", "-", "~", "&", "+", "sizeof"):
             if self.at(op):
                 raise Refuse(f"{self.fn}: unary `{op}`")
@@ -437,6 +450,10 @@ class Parser:
         if self.at("this") and self.at("->", 1):
             self.i += 2
             return ("var", self.eat()[1])
+        if self.at("::") and self.peek(1)[0] == "id" and self.at("(", 2):
+            self.eat()
+            name = "::" + self.eat()[1]
+            return ("call", name, self.args())
         if t[0] == "id":
             name = self.eat()[1]
             while self.at("::"):
@@ -463,9 +480,9 @@ LEAN_KEYWORDS = {"end", "at", "from", "fun", "in", "do", "then", "else", "if", "
                  "where", "by", "def", "instance", "structure", "class", "variable", "local", "private", "mutual", "section",
                  "namespace", "import", "theorem", "example", "calc", "for", "return", "unless", "try", "catch", "finally", "mut",
                  "nomatch", "using", "prefix", "infix", "notation", "macro", "syntax", "deriving", "extends", "universe", "set_option"}
-LEAN_TYPE = {"cptr": "Ptr", "argvp": "Nat", "optp": "Nat", "usize": "Nat", "int": "Int", "bool": "Bool", "string": "List Nat",
+LEAN_TYPE = {"kern": "K", "cptr": "Ptr", "argvp": "Nat", "optp": "Nat", "usize": "Nat", "int": "Int", "bool": "Bool", "string": "List Nat",
              "strlist": "List (List Nat)"}
-LEAN_DEFAULT = {"cptr": "Ptr.null", "argvp": "0", "optp": "0", "usize": "0", "int": "0", "bool": "false", "string": "[]", "strlist": "[]"}
+LEAN_DEFAULT = {"kern": "⟨[], []⟩", "cptr": "Ptr.null", "argvp": "0", "optp": "0", "usize": "0", "int": "0", "bool": "false", "string": "[]", "strlist": "[]"}
 
 
 def fld(name):
@@ -495,6 +512,8 @@ class Fn:
         self.flags = flags
         self.fuel = fuel
         self.members = set(members)
+        self.proc = False                                      # the Process-object functions: syscalls, casts, errno
+        self.callees = {}                                      # member functions that may be called: C++ name -> (Lean name, parameter names)
         self.blocks = []                                       # Lean definitions in dependency order
         self.nblk = self.ntmp = self.nloop = 0
         self.reads = set()
@@ -585,6 +604,8 @@ class Fn:
                 ty, term = self.consts[name]
                 return k(ty, term)
             if name not in self.vars:
+                if self.proc and name in self.flags:
+                    return k("intlit", str(self.flags[name]))
                 raise Refuse(f"{self.name}: unknown identifier `{name}`")
             self.reads.add(name)
             return k(self.vars[name], f"s.{fld(name)}")
@@ -594,9 +615,11 @@ class Fn:
             raise Refuse(f"{self.name}: unknown constant `{e[1]}`")
         if kind == "cast":
             def kk(ty, term):
-                if ty != "int":
-                    raise Refuse(f"{self.name}: (char) of a {ty}")
-                return k("char", f"(toChar {term})")
+                if e[1] == "char" and ty == "int":
+                    return k("char", f"(toChar {term})")
+                if e[1] == "pid_t" and ty == "usize" and self.proc:
+                    return k("usize", term)                 # a pid is a pid
+                raise Refuse(f"{self.name}: ({e[1]}) of a {ty}")
             return self.cexpr(e[2], kk)
         if kind == "un":
             op, x = e[1], e[2]
@@ -667,6 +690,20 @@ class Fn:
                     self.touch(m)
                 t = self.tmp()
                 return (f"match nextChar E s with\n| some (.ret {t} s) =>\n{ind(k('bool', t))}\n| _ => none")
+            if self.proc and name in self.callees:
+                lean, params = self.callees[name][len(args)] if len(args) in self.callees[name] else (None, None)
+                if lean is None or [a for a in args] != [("var", q) for q in params]:
+                    raise Refuse(f"{self.name}: call of `{name}`: the arguments must be the variables named like the parameters")
+                for m in self.vars:
+                    self.touch(m)
+                t = self.tmp()
+                return (f"match {lean} E s with\n| some (.ret {t} s) =>\n{ind(k('bool', t))}\n| _ => none")
+            if self.proc and name == "WEXITSTATUS" and len(args) == 1:
+                def kk(ty, term):
+                    if ty != "int":
+                        raise Refuse(f"{self.name}: WEXITSTATUS of a {ty}")
+                    return k("usize", f"(wexitstatus {term})")
+                return self.cexpr(args[0], kk)
             if name == "String::length" and len(args) == 1:
                 def kk(ty, term):
                     if ty != "cptr":
@@ -732,6 +769,16 @@ class Fn:
         if kind == "bool":
             return (kt if e[1] else kf).text
         ite = lambda c: f"if {c} then\n{ind(kt.text)}\nelse\n{ind(kf.text)}"
+        if (self.proc and kind == "bin" and e[1] == "!=" and e[2][0] == "call" and e[2][1] == "waitpid"):
+            args, rhs = e[2][2], e[3]
+            pidarg = args[0][2] if args and args[0][0] == "cast" else (args[0] if args else None)
+            if (len(args) != 3 or pidarg != ("var", "pid") or args[1][0] != "addr" or self.vars.get(args[1][1]) != "int"
+                    or args[2] != ("num", 0) or rhs != ("cast", "pid_t", ("var", "pid"))):
+                raise Refuse(f"{self.name}: waitpid is not called as `waitpid(pid, &status, 0) != (pid_t)pid`")
+            st = args[1][1]
+            t = self.tmp()
+            return (f"match K.waitpid s.k s.pid with\n| (none, k') =>\n  let s := {{ s with k := k' }}\n{ind(kt.text)}\n"
+                    f"| (some {t}, k') =>\n  let s := {{ s with k := k', {fld(st)} := ({t} : Int) }}\n{ind(kf.text)}")
         if kind == "bin" and e[1] in ("==", "!=", "<"):
             op, a, b = e[1], e[2], e[3]
             if op != "<" and a[0] == "call" and a[1] == "String::compare" and len(a[2]) == 3 and b == ("num", 0):
@@ -769,7 +816,7 @@ class Fn:
         def kv(ty, term):
             if ty == "bool":
                 return ite(f"{term} = true")
-            if ty in ("char", "usize"):
+            if ty in ("char", "usize") or (ty == "int" and self.proc):
                 return f"if {term} = 0 then\n{ind(kf.text)}\nelse\n{ind(kt.text)}"
             if ty == "cptr":
                 return f"if {term} = Ptr.null then\n{ind(kf.text)}\nelse\n{ind(kt.text)}"
@@ -815,6 +862,8 @@ class Fn:
         if kind == "decl":
             _, ty, name, init = s
             if init is None:
+                if ty in ("int", "usize") and self.proc:
+                    return k.text                      # `int status;`: no value yet, the field keeps what it holds
                 if ty != "string":
                     raise Refuse(f"{self.name}: `{name}` is declared without initialiser")
                 return self.update(name, "[]", lambda: k.text)
@@ -879,6 +928,22 @@ class Fn:
                     return self.update(name, f"s.{fld(name)} ++ [{x1}]", lambda: k.text)
                 return self.cexpr(args[0], k1)
             raise Refuse(f"{self.name}: method `{m}` of a {ty}")
+        if kind == "call" and self.proc:
+            name, args = e[1], e[2]
+            if name == "::close" and len(args) == 1:
+                def k1(t1, x1):
+                    if t1 != "int":
+                        raise Refuse(f"{self.name}: ::close({t1})")
+                    return self.update("k", f"K.close s.k {x1}", lambda: k.text)
+                return self.cexpr(args[0], k1)
+            if name == "::kill" and len(args) == 2 and args[1] == ("var", "SIGKILL"):
+                def k1(t1, x1):
+                    if t1 != "usize":
+                        raise Refuse(f"{self.name}: ::kill({t1}, SIGKILL)")
+                    return self.update("k", f"K.kill s.k {x1} SIGKILL", lambda: k.text)
+                return self.cexpr(args[0], k1)
+            if name in self.callees:
+                return self.cexpr(e, lambda ty, term: k.text)
         raise Refuse(f"{self.name}: expression statement `{kind}`")
 
     def cswitch(self, s, k, ctx):
@@ -1024,14 +1089,14 @@ def class_arguments(toks):
     return members, ctor
 
 
-def option_flags(toks):
-    idx = [i for i in range(len(toks) - 2) if toks[i] == ("id", "enum") and toks[i + 1] == ("id", "OptionFlags") and toks[i + 2] == ("op", "{")]
+def option_flags(toks, enum="OptionFlags"):
+    idx = [i for i in range(len(toks) - 2) if toks[i] == ("id", "enum") and toks[i + 1] == ("id", enum) and toks[i + 2] == ("op", "{")]
     if len(idx) != 1:
-        raise Refuse("enum OptionFlags not found")
+        raise Refuse(f"enum {enum} not found")
     k, flags = idx[0] + 3, {}
     while toks[k] != ("op", "}"):
         if toks[k][0] != "id" or toks[k + 1] != ("op", "=") or toks[k + 2][0] != "num":
-            raise Refuse("enum OptionFlags: entry is not `name = number`")
+            raise Refuse(f"enum {enum}: entry is not `name = number`")
         flags[toks[k][1]] = toks[k + 2][1]
         k += 3
         if toks[k] == ("op", ","):
@@ -1118,6 +1183,68 @@ def generate(repo):
     return "\n".join(out)
 
 
+def generate_proc(repo):
+    """the Process object: constructor, destructor, isRunning, kill, join(uint32&), join(), close(uint) (POSIX branches)"""
+    cpp = posix_branch(scan((Path(repo) / "src/Process.cpp").read_text()))
+    hpp = posix_branch(scan((Path(repo) / "include/nstd/Process.hpp").read_text()))
+    streams = option_flags(hpp, "Stream")
+    texts = [t[1] if t[0] in ("id", "op") else None for t in hpp]
+    members = []
+    for ty, name in (("int", "fdStdOutRead"), ("int", "fdStdErrRead"), ("int", "fdStdInWrite"), ("uint32", "pid")):
+        if sum(1 for i in range(len(texts) - 2) if texts[i:i + 3] == [ty, name, ";"]) != 1:
+            raise Refuse(f"class Process: data member `{ty} {name};` not found")
+        members.append((name, TYPES[(ty,)]))
+    consts = {"EINVAL": ("usize", "EINVAL")}
+    ghosts = [("errno", "usize"), ("k", "kern")]
+    sigs = {
+        "join": (["bool", "Process", "::", "join", "(", "uint32", "&", "exitCode", ")"], "bool", [("exitCode", "usize")]),
+        "join0": (["bool", "Process", "::", "join", "(", ")"], "bool", []),
+        "dtor": (["Process", "::", "~", "Process", "(", ")"], "void", []),
+        "kill": (["bool", "Process", "::", "kill", "(", ")"], "bool", []),
+        "isRunning": (["bool", "Process", "::", "isRunning", "(", ")", "const"], "bool", []),
+        "close": (["void", "Process", "::", "close", "(", "uint", "streams", ")"], "void", [("streams", "usize")]),
+        "ctor": (["Process", "::", "Process", "(", ")", ":", "pid", "(", "0", ")"], "void", []),
+    }
+    docs = {"join": "bool Process::join(uint32& exitCode)", "join0": "bool Process::join()", "dtor": "Process::~Process()",
+            "kill": "bool Process::kill()", "isRunning": "bool Process::isRunning() const", "close": "void Process::close(uint streams)",
+            "ctor": "Process::Process() : pid(0)"}
+    bodies = {n: parse_body(find_body(cpp, sg[0], "Process::" + n), n) for n, sg in sigs.items()}
+    allvars = dict(members)
+    for n, sg in sigs.items():
+        for v, t in sg[2]:
+            if allvars.get(v, t) != t:
+                raise Refuse(f"{n}: parameter `{v}` clashes with another variable")
+            allvars[v] = t
+    fns, order = {}, ["join", "join0", "dtor", "kill", "isRunning", "close", "ctor"]
+    callees = {"join": {1: ("join", ["exitCode"])}}
+    for n in order:                                        # one record for all: collect the locals first
+        f = Fn(n, "PS", sigs[n][1], allvars, consts, streams, False, [m for m, _ in members])
+        f.proc = True
+        f.declare(bodies[n])
+        allvars = dict(f.vars)
+    allvars.update(dict(ghosts))
+    out_blocks = []
+    for n in order:
+        f = Fn(n, "PS", sigs[n][1], allvars, consts, streams, False, [m for m, _ in members])
+        f.proc, f.callees = True, callees
+        body = bodies[n]
+        if n == "ctor":                                    # `: pid(0)` first
+            body = [("expr", ("assign", "=", ("var", "pid"), ("num", 0)))] + body
+        blocks = f.function(body, "`" + docs[n] + "` (POSIX branch)")
+        if f.vars != allvars:
+            raise Refuse(f"{n}: undeclared variable")
+        out_blocks.append("\n\n".join(blocks))
+    rec = ("structure PS where\n" + "".join(f"  {fld(v)} : {LEAN_TYPE[t]}\n" for v, t in allvars.items()) + "\n"
+           "def PS.zero : PS :=\n  { " + ", ".join(f"{fld(v)} := {LEAN_DEFAULT[t]}" for v, t in allvars.items()) + " }\n")
+    out = ["/- generated by tools/gen_args.py from src/Process.cpp and include/nstd/Process.hpp — do not edit -/",
+           "import Nstd.Args.CSemProc", "", "set_option linter.unusedVariables false", "", "namespace Nstd.Args.GenP",
+           "open Nstd.Args Nstd.Args.C", "", "/-- `enum Stream` -/"]
+    out += [f"def {k} : Nat := {v}" for k, v in streams.items()]
+    out += ["", "/-- data members of `class Process` (POSIX), the parameters and locals of the translated member functions, `errno`, the kernel ghost -/",
+            rec, "\n\n".join(out_blocks), "", "end Nstd.Args.GenP", ""]
+    return "\n".join(out)
+
+
 def run(repo=None):
     """returns (ok, message); writes the generated file only when its content changed"""
     if repo is None:
@@ -1125,18 +1252,20 @@ def run(repo=None):
         repo = common.REPO
     try:
         text = generate(repo)
+        ptext = generate_proc(repo)
     except (Refuse, OSError, IndexError) as ex:
         return False, f"tools/gen_args.py refuses the current Process.cpp / Process.hpp (broken tie): {ex}"
     OUT.parent.mkdir(parents=True, exist_ok=True)
-    if not OUT.exists() or OUT.read_text() != text:
-        OUT.write_text(text)
-    return True, hashlib.sha1(text.encode()).hexdigest()[:12]
+    for out, t in ((OUT, text), (OUT_PROC, ptext)):
+        if not out.exists() or out.read_text() != t:
+            out.write_text(t)
+    return True, hashlib.sha1((text + ptext).encode()).hexdigest()[:12]
 
 
 def gen(ctx):
     ok, msg = run()
     if ok:
-        ctx.notes.append(f"translator: Nstd/Generated/ArgsCode.lean regenerated from the current Process.cpp / Process.hpp (sha1 {msg})")
+        ctx.notes.append(f"translator: Nstd/Generated/ArgsCode.lean and ArgsProc.lean regenerated from the current Process.cpp / Process.hpp (sha1 {msg})")
     return ok, msg
 
 
